@@ -102,7 +102,7 @@ func ZZ_C01_p2sh32() {
 	}
 	s := a.EncodeAddress()
 	vAssert("payload-kept", vEqBytes(a.ScriptAddress(), hash))
-	vAssert("p2sh32:spec-string", s == zzRefCashAddr(prefix, 2, hash))
+	vAssert("p2sh32:spec-string", s == zzRefCashAddr(prefix, 1, hash)) // type bits 1 (script hash), size code 3
 	d, err := DecodeAddress(s, net)
 	vAssert("p2sh32:accepted", err == nil)
 	if err == nil {
